@@ -4,6 +4,8 @@ import G3D.Props.C02
 import G3D.Proofs.AlgebraB
 import G3D.Proofs.BodySoundSets
 import G3D.Proofs.AlgebraAll
+import G3D.Proofs.K4f
+import G3D.Proofs.AlgebraEuler
 /-! # C12 — intersection obeys the algebra of set intersection  (full for flats; partial for bodies)
     For flats everything follows from C01 because flats are closed under `intersection`.  For polygons the
     "vertices in both" clause follows from C02's exactness; self-intersection / subset / associativity for
@@ -112,5 +114,42 @@ theorem result_is_intersection (a b : Obj) (ha : OpOK a) (hb : OpOK b) (hnb : No
     (h : inter a b = .ok o) : ∀ x, denOptB o x ↔ (ObjDen a x ∧ ObjDen b x) := by
   obtain ⟨o', ho', _, hd⟩ := inter_exact_admissible a b ha hb hnb
   rw [h] at ho'; cases ho'; exact hd
+
+
+/-- … and for two polyhedra too, whenever the call returns (K4) -/
+theorem result_is_intersection_polyhedra (A B : Polyhedron) (hA : A.ExactHyp) (hB : B.ExactHyp) (o : Option Obj)
+    (h : inter (.polyhedron A) (.polyhedron B) = .ok o) : ∀ x, denOptB o x ↔ (InHull A.verts x ∧ InHull B.verts x) := by
+  rw [Props.C04.inter_eq_ref] at h
+  exact ((interPolyhedronPolyhedron_exact_of_ok A B hA hB).1 o h).2
+
+
+/-! ### all seven types, with Euler's polyhedron formula (`EulerAll`: the check `ConvexPolyhedron.__init__` makes on the faces
+    assembled by polyhedron × polyhedron always passes) as the ONLY hypothesis -/
+/-- **associativity for all 343 type triples**: both nestings return without error and denote exactly a ∩ b ∩ c -/
+theorem assoc_all_types_of_euler (hE : EulerAll) (a b c : Obj) (ha : OpOK a) (hb : OpOK b) (hc : OpOK c) :
+    ∃ ab bc l r, inter a b = .ok ab ∧ inter b c = .ok bc ∧
+      interOpt ab (some c) = .ok l ∧ interOpt (some a) bc = .ok r ∧ ResOK' l ∧ ResOK' r ∧
+      (∀ x, denOptB l x ↔ (ObjDen a x ∧ ObjDen b x ∧ ObjDen c x)) ∧
+      (∀ x, denOptB r x ↔ (ObjDen a x ∧ ObjDen b x ∧ ObjDen c x)) := by
+  obtain ⟨ab, bc, l, r, h1, h2, h3, h4, rest⟩ := interRef_assoc_all hE a b c ha hb hc
+  refine ⟨ab, bc, l, r, by rw [Props.C04.inter_eq_ref]; exact h1, by rw [Props.C04.inter_eq_ref]; exact h2, ?_, ?_, rest⟩
+  · cases ab with
+    | none => simp only [interOptLB] at h3; cases h3; exact (Props.C04.interOpt_none _).1
+    | some g => simp only [interOpt]; rw [Props.C04.inter_eq_ref]; exact h3
+  · cases bc with
+    | none => simp only [interOptRB] at h4; cases h4; exact (Props.C04.interOpt_none _).2
+    | some g => simp only [interOpt]; rw [Props.C04.inter_eq_ref]; exact h4
+
+/-- `intersection(a, a)` denotes `a` — all seven types -/
+theorem self_all_types_of_euler (hE : EulerAll) (a : Obj) (ha : OpOK a) :
+    ∃ g, inter a a = .ok (some g) ∧ OpOK g ∧ ∀ x, ObjDen g x ↔ ObjDen a x := by
+  rw [Props.C04.inter_eq_ref]; exact interRef_self_all hE a ha
+
+/-- `a ⊆ b` ⇒ `intersection(a, b)`, `intersection(b, a)` denote `a` — all 49 pairs -/
+theorem subset_all_types_of_euler (hE : EulerAll) (a b : Obj) (ha : OpOK a) (hb : OpOK b)
+    (hsub : ∀ x, ObjDen a x → ObjDen b x) (hne : ∃ x, ObjDen a x) :
+    (∃ g, inter a b = .ok (some g) ∧ ∀ x, ObjDen g x ↔ ObjDen a x) ∧
+    (∃ g, inter b a = .ok (some g) ∧ ∀ x, ObjDen g x ↔ ObjDen a x) := by
+  rw [Props.C04.inter_eq_ref, Props.C04.inter_eq_ref]; exact interRef_of_subset_all hE a b ha hb hsub hne
 
 end G3D.Props.C12
